@@ -74,28 +74,45 @@ var quickTuples = []tuple{
 	{aHR}, {aHR, aA}, {aHR, aI1}, {aHW}, {aHW, aW},
 	{aTBL}, {aTBL, aFN}, {aFN}, {aFN, aPS},
 	{aI1}, {aI0}, {aI1, aPS}, {aTBL, aPS},
-	{aCTX}, {aCO}, {aNIL, aPS}, {aPS, aI1},
+	{aCO}, {aNIL, aPS}, {aPS, aI1}, {aTRUE},
 }
 
-// thoroughTuples: every tuple of length <= 2 over all atoms, plus the
-// three-argument shapes of the standard library.
+// thoroughTuples: the quick pool first (same indices), then every single
+// atom, every pair over the core atoms and the three-argument shapes of the
+// standard library.  aCTX (a foreign userdata) is left out of all tuples:
+// io.type/io.close/file methods do an unchecked type assertion on userdata
+// arguments and the resulting Go panic, when raised inside a coroutine, kills
+// the process (a C04 matter, reported separately).
 func thoroughTuples() []tuple {
-	out := []tuple{{}}
-	for a := atomID(0); a < nAtoms; a++ {
-		out = append(out, tuple{a})
+	out := append([]tuple(nil), quickTuples...)
+	seen := map[string]bool{}
+	for _, t := range out {
+		seen[t.String()] = true
 	}
-	for a := atomID(0); a < nAtoms; a++ {
-		for b := atomID(0); b < nAtoms; b++ {
-			out = append(out, tuple{a, b})
+	add := func(t tuple) {
+		if !seen[t.String()] && !t.has(aCTX) {
+			seen[t.String()] = true
+			out = append(out, t)
 		}
 	}
-	out = append(out,
-		tuple{aPS, aT, aTBL}, tuple{aPS, aW, aTBL}, tuple{aPM, aW, aI1},
-		tuple{aHR, aSET, aI0}, tuple{aHW, aSET, aI0}, tuple{aHW, aW, aI7},
-		tuple{aMOD, aTPL, aDOT}, tuple{aCMD, aR, aTBL}, tuple{aCMD, aW, aI1},
-		tuple{aTBL, aI1, aPS}, tuple{aTBL, aPS, aFN}, tuple{aFN, aFN, aPS},
-		tuple{aPS, aPM, aTRUE}, tuple{aHR, aA, aA}, tuple{aI1, aPS, aCMD},
-	)
+	for a := atomID(0); a < nAtoms; a++ {
+		add(tuple{a})
+	}
+	core := []atomID{aPS, aPG, aPM, aPD, aCMD, aMOD, aR, aW, aI1, aTBL, aFN, aNIL, aHR, aHW}
+	for _, a := range core {
+		for _, b := range core {
+			add(tuple{a, b})
+		}
+	}
+	for _, t := range []tuple{
+		{aPS, aT, aTBL}, {aPS, aW, aTBL}, {aPM, aW, aI1},
+		{aHR, aSET, aI0}, {aHW, aSET, aI0}, {aHW, aW, aI7},
+		{aMOD, aTPL, aDOT}, {aCMD, aR, aTBL}, {aCMD, aW, aI1},
+		{aTBL, aI1, aPS}, {aTBL, aPS, aFN}, {aFN, aFN, aPS},
+		{aPS, aPM, aTRUE}, {aHR, aA, aA}, {aI1, aPS, aCMD},
+	} {
+		add(t)
+	}
 	return out
 }
 
